@@ -46,3 +46,40 @@ def run_scenario(scenario_text, profile="dev", timeout=1500):
                 "seconds": round(dt, 1)}
     finally:
         s.close()
+
+
+def run_loom(used, threads, calls, timeout=1500):
+    """C13: run the real ConcurrentNodeIds under loom (all interleavings) for the counterexample's
+    configuration.  Returns dict(reproduced: True|False|None, lines, tail)."""
+    s = Scratch("loom")
+    try:
+        s.standalone_workspace()
+        ct = s.path("Cargo.toml")
+        txt = open(ct).read()
+        if "\nloom" not in txt:
+            txt = txt.replace("[dependencies]", "[dependencies]\nloom = \"0.7\"", 1)
+        open(ct, "w").write(txt)
+        pp = s.path("src", "parallel.rs")
+        src = open(pp).read()
+        src2 = re.sub(r"use std::sync::atomic::", "use loom::sync::atomic::", src)
+        if src2 == src:
+            return {"reproduced": None, "lines": [], "tail": "no std::sync::atomic import found in src/parallel.rs", "seconds": 0}
+        open(pp, "w").write(src2)
+        dst = s.path("src", "verif_loom.rs")
+        with open(os.path.join(HARNESS, "native", "verif_loom.rs")) as f:
+            open(dst, "w").write(f.read())
+        s.inject_mod("src/parallel.rs", "verif_loom", dst, cfg="test")
+        spec = f"threads={threads};calls={calls};used=" + (",".join(map(str, used)) or "-")
+        cmd = ["cargo", "test", "--offline", "--lib", "--release", "--target-dir", os.path.join(s.dir, "target"),
+               "verif_loom", "--", "--nocapture", "--test-threads", "1"]
+        rc, out, dt = run(cmd, cwd=s.repo, env={"VERIF_LOOM": spec, "LOOM_MAX_PREEMPTIONS": "3"}, timeout=timeout)
+        lines = [m.group(0).strip() for m in re.finditer(r"RESULT (?:violation|holds)[^\n]*", out)]
+        if any(l.startswith("RESULT violation") for l in lines):
+            rep = True
+        elif any(l.startswith("RESULT holds") for l in lines):
+            rep = False
+        else:
+            rep = None
+        return {"reproduced": rep, "spec": spec, "lines": lines, "tail": out[-1200:] if rep is None else "", "seconds": round(dt, 1)}
+    finally:
+        s.close()
